@@ -2238,7 +2238,8 @@ class FileSet:
 
         return destination
 
-    def _move_single_file(self,
+    @staticmethod
+    def _move_single_file(
             file_info, fileset, destination, convert, copy):
         """This is a small wrapper function for moving files. It is better to
         use :meth:`FileSet.move` directly.
@@ -2275,13 +2276,13 @@ class FileSet:
                 os.remove(file_info.path)
         else:
             # Create the new directory if necessary.
-            self.file_system.makedirs(
+            fileset.file_system.makedirs(
                     posixpath.dirname(new_filename), exist_ok=True)
 
             if copy:
-                self.file_system.copy(file_info.path, new_filename)
+                fileset.file_system.copy(file_info.path, new_filename)
             else:
-                self.file_system.move(file_info.path, new_filename)
+                fileset.file_system.move(file_info.path, new_filename)
 
     @property
     def name(self):
